@@ -233,6 +233,11 @@ type Bounds struct {
 	HugeOdds uint64
 	// GiantOdds: one world in GiantOdds starts from a frame of 8193..33500 rows (0 = never).
 	GiantOdds uint64
+	// LongNamesOdds: one world in LongNamesOdds has column names of 35..250 characters (0 = never).
+	LongNamesOdds uint64
+	// Cold: the base frames are registered without observing them either
+	// (AddLight): whoever uses them first is the code under test.
+	Cold bool
 }
 
 // NewWorld draws the base frames (the slices handed to New stay owned by the
@@ -247,6 +252,9 @@ func NewWorld(t *rapid.T, b Bounds) *World {
 			// sizes beyond the small-frame regimes (insertion sort <= 12 rows,
 			// ninther pivot > 40, several hash-table growth steps)
 			fb.MinRows, fb.MaxRows = 41, 3*b.MaxRows+60
+			if rapid.IntRange(0, 3).Draw(t, "over128") == 0 {
+				fb.MinRows, fb.MaxRows = 129, 260 // a few hundred rows: thresholds of 64, 128, 256
+			}
 		}
 		if i == 0 && b.HugeOdds > 0 && gen.Rare(t, "hugebase", b.HugeOdds) {
 			// beyond size thresholds of a thousand rows (caches and fast
@@ -258,6 +266,7 @@ func NewWorld(t *rapid.T, b Bounds) *World {
 			w.Huge = true
 		}
 		fb.SmallDomain = rapid.IntRange(0, 5).Draw(t, "smalldomain") != 0
+		fb.LongNames = b.LongNamesOdds > 0 && gen.Rare(t, "longnames", b.LongNamesOdds)
 		var fs *gen.FrameSpec
 		if i == 0 && b.GiantOdds > 0 && gen.Rare(t, "giantbase", b.GiantOdds) {
 			fs = gen.DrawGiantFrame(t)
@@ -284,7 +293,11 @@ func NewWorld(t *rapid.T, b Bounds) *World {
 			}
 		}
 		w.inputs = append(w.inputs, ic)
-		w.AddFrame(fs.Build(), fmt.Sprintf("New(base%d)", i), -1)
+		if b.Cold {
+			w.AddLight(&Member{Kind: KFrame, F: fs.Build(), Origin: fmt.Sprintf("New(base%d)", i), Owner: -1})
+		} else {
+			w.AddFrame(fs.Build(), fmt.Sprintf("New(base%d)", i), -1)
+		}
 	}
 	return w
 }
@@ -435,10 +448,11 @@ func (m *Member) FreshCopy() (*Member, bool) {
 // its own member list and clause table (so that the harness itself shares no
 // mutable state between goroutines), holding the same member and clause
 // VALUES (which is the point: those are what qframe must tolerate being
-// shared). With cold set the evaluation context is left to be created lazily
-// by the goroutine itself.
+// shared). The same goes for the evaluation context with the user's functions:
+// it is built completely before the goroutines start and only passed to Eval
+// afterwards, the way a program keeps one context around.
 func (w *World) Fork() *World {
-	f := &World{Specs: w.Specs, Huge: w.Huge, Giant: w.Giant, Members: append([]*Member{}, w.Members...), clauses: map[string]qframe.FilterClause{}}
+	f := &World{Specs: w.Specs, Huge: w.Huge, Giant: w.Giant, Members: append([]*Member{}, w.Members...), clauses: map[string]qframe.FilterClause{}, userCtx: w.UserCtx()}
 	for k, v := range w.clauses {
 		f.clauses[k] = v
 	}
